@@ -317,6 +317,22 @@ pub fn check(id: &str, tier: Tier) -> i32 {
     bounds.push(json!({"kind": "blocks at odd offsets, no fresh space: requests around the true data size of a released block, next to the owner of the neighbouring block", "threads": 2, "preemption_bound": if thorough { 4 } else { 3 }, "harnesses": count}));
   }
   if id != "C13" {
+    // nearly full arenas with the cursor at an odd residue and aligned requests whose size is not a multiple of
+    // the alignment: the request itself fits behind the cursor, the request plus its padding does not
+    use TOp::*;
+    let pairs: Vec<(Vec<TOp>, Vec<TOp>)> = vec![(vec![AB(3)], vec![B(16)]), (vec![AB(3)], vec![AB(5)]), (vec![AB(5), DropOwn], vec![U64]), (vec![AB(3)], vec![DropPre(1)])];
+    let mut count = 0;
+    for fl in [Fl::Optimistic, Fl::Pessimistic, Fl::None] {
+      for (leave, odd) in [(8u32, 3u8), (8, 5), (16, 6)] {
+        for (a, b) in &pairs {
+          items.push((Harness { fl, unify: true, min_seg: 8, cap: 256, shape: if fl == Fl::None { 0 } else { 3 }, progs: vec![a.clone(), b.clone()], own_arenas: false, leave, odd, reserved: 0 }, 3));
+          count += 1;
+        }
+      }
+    }
+    bounds.push(json!({"kind": "nearly full arenas, odd cursor, aligned requests of odd size", "threads": 2, "preemption_bound": 3, "harnesses": count}));
+  }
+  if id != "C13" {
     // regression harnesses: the programs on which the thorough tier found the stale-traversal defect
     // (S13, 3 threads / 3 preemptions), kept in every tier at the bound that exposes them
     use TOp::*;
